@@ -90,3 +90,8 @@ fn x_aq_drain_empty() {
     assert!(n == 0);
     std::mem::forget(q);
 }
+
+/// Does the frame hold an input edge to `key`? (linear scan over the recorded edges: no hashing)
+pub(crate) fn frame_has_input_edge(q: &ActiveQuery, key: DatabaseKeyIndex) -> bool {
+    q.input_outputs.iter().any(|e| *e == QueryEdge::input(key))
+}
